@@ -13,7 +13,7 @@ from __future__ import annotations
 import ast
 
 from ..core import UNKNOWN, AnalysisError, FuncInfo, call_name, get_arg, is_self_attr, norm, walk_no_nested
-from ..paths import cfg_of, enclosing_loops, node_of, structural_guards
+from ..paths import canon, cfg_of, enclosing_loops, node_of, structural_guards
 from ..tomrun import run_tom
 
 EXPLANATION = (
@@ -243,6 +243,27 @@ def r17d(ctx):
             if not ok:
                 ctx.report("R17d", f, d, d, f"{q} deletes {item} without having established that it is empty (reversed scan={rev}, stops at first non-empty={stops}, {how}): "
                            f"non-empty content can be stripped")
+    # shrinking the repeat count of a stored row / cell removes logical rows / cells just as a delete does: it needs the same evidence
+    for q, _ in specs:
+        f = repo.func(q)
+        for c in walk_no_nested(f.node):
+            if not (isinstance(c, ast.Call) and call_name(c) == "_set_repeated" and isinstance(c.func, ast.Attribute) and isinstance(c.func.value, ast.Name) and c.args):
+                continue
+            item = c.func.value.id
+            src = canon(f, c.func.value)
+            if not any(k in src for k in ("_get_rows()", "_get_cells()")):
+                continue
+            arg = c.args[0]
+            if not (isinstance(arg, ast.Constant) and arg.value is None):
+                continue  # a computed count is the business of the run arithmetic (C01)
+            gs = structural_guards(c, stop=f.node)
+            tested = any(pol and isinstance(x, ast.Call) and call_name(x) == "is_empty" and isinstance(x.func, ast.Attribute) and isinstance(x.func.value, ast.Name)
+                         and x.func.value.id == item for t, pol in gs for x in ast.walk(t))
+            ctx.instance("R17d", f"{f.file}:{f.ident}", f"{norm(c, 40)} (all repetitions but one dropped): " + ("only when the item is empty" if tested else "NO emptiness evidence"),
+                         ok=tested, nontrivial=True, line=c.lineno)
+            if not tested:
+                ctx.report("R17d", f, c, c, f"{q} reduces `{item}` ({src}) to a single occurrence without having established that it is empty: when the last row holds content "
+                           f"and is repeated N times, N-1 rows of content disappear")
     if ctx.rules["R17d"].instances < 3:
         raise AnalysisError("R17d: strip loops not found")
 
@@ -419,6 +440,10 @@ def run(ctx):
     r17f(ctx)
     r17g(ctx)
     r17h(ctx)
+    # span and area operations write back through Table.set_cells / set_row: a row copy that still carries a repeat count is written N times
+    # (the one-row-only obligation R01a of C01 is a necessary condition here too)
+    from .c01 import r01a
+    r01a(ctx, tom)
 
 
 from ..selftest import Seed, unparse_seed  # noqa: E402
@@ -426,6 +451,8 @@ from ..selftest import Seed, unparse_seed  # noqa: E402
 _T = "src/odfdo/table.py"
 _R = "src/odfdo/row.py"
 SEEDS = [
+    Seed("optimize_width un-repeats the last row whatever it holds", "fault", _T,
+         "            if last_row.is_empty(aggressive=False):\n                last_row._set_repeated(None)", "            last_row._set_repeated(None)", "R17d"),
     Seed("transpose reads the stored row elements", "fault", _T, "        if coord is None:\n            for row in self.traverse():\n                data.append(list(row.traverse()))",
          "        if coord is None:\n            for row in self._get_rows():\n                data.append(list(row.traverse()))", "R17h"),
     Seed("Row.get_sub_elements reads the stored cell elements", "fault", _R, "        return [cell.children for cell in self.traverse()]", "        return [cell.children for cell in self._get_cells()]", "R17h"),
